@@ -21,6 +21,7 @@ type DB struct {
 	inMemory  bool
 	stmtCount int
 	faults    bool // fault injection enabled (C10/C20 harnesses)
+	commits   int  // number of times the committed state was replaced
 }
 
 type Txn struct {
@@ -546,6 +547,7 @@ func init() {
 			return ret(e.newError("closed", "sql: database is closed"))
 		}
 		tx.db.committed = tx.work
+		tx.db.commits++
 		tx.db.txn = nil
 		e.crashPoint("after-commit")
 		return ret(nilIface)
@@ -637,6 +639,7 @@ func init() {
 			return ret(TupleV{nilIface, xerr})
 		}
 		db.committed = work
+		db.commits++
 		return ret(TupleV{&IfaceV{T: sqlResultType, V: &NativeV{Kind: "sql.Result", Data: &res}}, nilIface})
 	}
 	stubs[S("DB).QueryRow")] = func(e *Exec, th *Thread, c *CallCtx, a []Val) StubRes {
@@ -782,6 +785,7 @@ func (e *Exec) faultChoice(where string) Val {
 		return nil
 	}
 	e.world["faultBudget"] = budget - 1
+	e.symOnly = true // injected faults cannot be replayed against the real driver
 	e.labels = append(e.labels, "fault:"+where)
 	if k == 1 {
 		return e.sqliteError(5) // SQLITE_BUSY
